@@ -18,6 +18,7 @@ package golang
 //@ ensures [prop] action == ruler.ActionSignBeaconProposal ==> (forall i int :: 0 <= i && i < len(rulesData) && result[i] == rules.APPROVED ==> hastype(rulesData[i].Data, "*rules.SignBeaconProposalData") && propApproved(rulesData[i].PubKey, unbox(rulesData[i].Data, "*rules.SignBeaconProposalData")))
 //@ ensures [gen] action == ruler.ActionSign ==> (forall i int :: 0 <= i && i < len(rulesData) && result[i] == rules.APPROVED ==> hastype(rulesData[i].Data, "*rules.SignData") && prefix4(unbox(rulesData[i].Data, "*rules.SignData").Domain) != ATT && prefix4(unbox(rulesData[i].Data, "*rules.SignData").Domain) != PROP)
 //@ ensures [distinct] locking(action) ==> (forall i int, j int :: 0 <= i && i < j && j < len(rulesData) && result[i] == rules.APPROVED && result[j] == rules.APPROVED ==> bytes(rulesData[i].PubKey) != bytes(rulesData[j].PubKey))
+//@ ensures [access] action == ruler.ActionAccessAccount && credentials != nil && credentials.Client != "" && (forall j int :: 0 <= j && j < len(rulesData) ==> rulesData[j] != nil && rulesData[j].Data != nil) ==> (forall i int :: 0 <= i && i < len(rulesData) && hastype(rulesData[i].Data, "*rules.AccessAccountData") ==> result[i] == rules.APPROVED)
 //@ ensures [dbframe] forall k Bytes :: (forall i int :: !(0 <= i && i < len(rulesData) && ((action == ruler.ActionSignBeaconAttestation && k == attKey(bytes(rulesData[i].PubKey))) || (action == ruler.ActionSignBeaconProposal && k == propKey(bytes(rulesData[i].PubKey)))))) ==> ((k in db) <==> old(k in db)) && db[k] == old(db[k])
 //@ hint-after runRules@1 [heldisdeferred] forall k [48]byte :: deferred()[k] <==> held[k]
 //@ loop #1
@@ -49,9 +50,10 @@ package golang
 //@ ensures [len] len(result) == len(rulesData)
 //@ ensures [fresh] fresh(result)
 //@ ensures [verdicts] forall i int :: 0 <= i && i < len(result) ==> result[i] == rules.UNKNOWN || result[i] == rules.APPROVED || result[i] == rules.DENIED || result[i] == rules.FAILED
-//@ ensures [att] action == ruler.ActionSignBeaconAttestation ==> (forall i int :: 0 <= i && i < len(result) && result[i] == rules.APPROVED ==> hastype(rulesData[i].Data, "*rules.SignBeaconAttestationData") && attApproved(rulesData[i].PubKey, unbox(rulesData[i].Data, "*rules.SignBeaconAttestationData")))
-//@ ensures [prop] action == ruler.ActionSignBeaconProposal ==> (forall i int :: 0 <= i && i < len(result) && result[i] == rules.APPROVED ==> hastype(rulesData[i].Data, "*rules.SignBeaconProposalData") && propApproved(rulesData[i].PubKey, unbox(rulesData[i].Data, "*rules.SignBeaconProposalData")))
-//@ ensures [gen] action == ruler.ActionSign ==> (forall i int :: 0 <= i && i < len(result) && result[i] == rules.APPROVED ==> hastype(rulesData[i].Data, "*rules.SignData") && prefix4(unbox(rulesData[i].Data, "*rules.SignData").Domain) != ATT && prefix4(unbox(rulesData[i].Data, "*rules.SignData").Domain) != PROP)
+//@ ensures [att] action == ruler.ActionSignBeaconAttestation ==> (forall i int :: 0 <= i && i < len(rulesData) && result[i] == rules.APPROVED ==> hastype(rulesData[i].Data, "*rules.SignBeaconAttestationData") && attApproved(rulesData[i].PubKey, unbox(rulesData[i].Data, "*rules.SignBeaconAttestationData")))
+//@ ensures [prop] action == ruler.ActionSignBeaconProposal ==> (forall i int :: 0 <= i && i < len(rulesData) && result[i] == rules.APPROVED ==> hastype(rulesData[i].Data, "*rules.SignBeaconProposalData") && propApproved(rulesData[i].PubKey, unbox(rulesData[i].Data, "*rules.SignBeaconProposalData")))
+//@ ensures [gen] action == ruler.ActionSign ==> (forall i int :: 0 <= i && i < len(rulesData) && result[i] == rules.APPROVED ==> hastype(rulesData[i].Data, "*rules.SignData") && prefix4(unbox(rulesData[i].Data, "*rules.SignData").Domain) != ATT && prefix4(unbox(rulesData[i].Data, "*rules.SignData").Domain) != PROP)
+//@ ensures [access] action == ruler.ActionAccessAccount && credentials != nil && credentials.Client != "" && (forall j int :: 0 <= j && j < len(rulesData) ==> rulesData[j] != nil && rulesData[j].Data != nil) ==> (forall i int :: 0 <= i && i < len(rulesData) && hastype(rulesData[i].Data, "*rules.AccessAccountData") ==> result[i] == rules.APPROVED)
 //@ ensures [dbframe] forall k Bytes :: (forall i int :: !(0 <= i && i < len(rulesData) && ((action == ruler.ActionSignBeaconAttestation && k == attKey(bytes(rulesData[i].PubKey))) || (action == ruler.ActionSignBeaconProposal && k == propKey(bytes(rulesData[i].PubKey)))))) ==> ((k in db) <==> old(k in db)) && db[k] == old(db[k])
 //@ hint-after before:runRulesForMultipleBeaconAttestations@1 [bytesdistinct] forall j int, k int :: 0 <= j && j < k && k < len(rulesData) ==> bytes(rulesData[j].PubKey) != bytes(rulesData[k].PubKey)
 //@ hint-after before:Scatter@1 [bytesdistinct] locking(action) ==> (forall j int, k int :: 0 <= j && j < k && k < len(rulesData) ==> bytes(rulesData[j].PubKey) != bytes(rulesData[k].PubKey))
@@ -69,6 +71,7 @@ package golang
 //@ func (*Service).assembleMetadata
 //@ ensures [ok] result1 == nil ==> result0 != nil && fresh(result0) && result0.Account == accountName && result0.PubKey == pubKey && credentials != nil && result0.Client == credentials.Client && result0.IP == credentials.IP
 //@ ensures [err] result1 != nil ==> result0 == nil
+//@ ensures [total] credentials != nil && credentials.Client != "" ==> result1 == nil
 
 //@ func (*Service).runRules$1
 //@ worker i offset entries
@@ -83,9 +86,11 @@ package golang
 //@ ensures-each [att] action == ruler.ActionSignBeaconAttestation && rulesData[i] != nil && results[i] == rules.APPROVED ==> hastype(rulesData[i].Data, "*rules.SignBeaconAttestationData") && attApproved(rulesData[i].PubKey, unbox(rulesData[i].Data, "*rules.SignBeaconAttestationData"))
 //@ ensures-each [prop] action == ruler.ActionSignBeaconProposal && rulesData[i] != nil && results[i] == rules.APPROVED ==> hastype(rulesData[i].Data, "*rules.SignBeaconProposalData") && propApproved(rulesData[i].PubKey, unbox(rulesData[i].Data, "*rules.SignBeaconProposalData"))
 //@ ensures-each [gen] action == ruler.ActionSign && rulesData[i] != nil && results[i] == rules.APPROVED ==> hastype(rulesData[i].Data, "*rules.SignData") && prefix4(unbox(rulesData[i].Data, "*rules.SignData").Domain) != ATT && prefix4(unbox(rulesData[i].Data, "*rules.SignData").Domain) != PROP
+//@ ensures-each [access] action == ruler.ActionAccessAccount && credentials != nil && credentials.Client != "" && rulesData[i] != nil && hastype(rulesData[i].Data, "*rules.AccessAccountData") ==> results[i] == rules.APPROVED
 //@ loop #1
 //@ invariant [range] offset <= i && i <= offset + entries
 //@ invariant [verdict] forall j int :: offset <= j && j < i && rulesData[j] != nil ==> results[j] == rules.APPROVED || results[j] == rules.DENIED || results[j] == rules.FAILED
+//@ invariant [access] forall j int :: offset <= j && j < i && action == ruler.ActionAccessAccount && credentials != nil && credentials.Client != "" && rulesData[j] != nil && hastype(rulesData[j].Data, "*rules.AccessAccountData") ==> results[j] == rules.APPROVED
 //@ invariant [att-type] forall j int :: offset <= j && j < i && action == ruler.ActionSignBeaconAttestation && rulesData[j] != nil && results[j] == rules.APPROVED ==> hastype(rulesData[j].Data, "*rules.SignBeaconAttestationData")
 //@ invariant [att-oldok] forall j int :: offset <= j && j < i && action == ruler.ActionSignBeaconAttestation && rulesData[j] != nil && results[j] == rules.APPROVED ==> old(wmAttOk(bytes(rulesData[j].PubKey)))
 //@ invariant [att-sound] forall j int :: offset <= j && j < i && action == ruler.ActionSignBeaconAttestation && rulesData[j] != nil && results[j] == rules.APPROVED ==> attOK(old(wmAttS(bytes(rulesData[j].PubKey))), old(wmAttT(bytes(rulesData[j].PubKey))), unbox(rulesData[j].Data, "*rules.SignBeaconAttestationData").Source.Epoch, unbox(rulesData[j].Data, "*rules.SignBeaconAttestationData").Target.Epoch, prefix4(unbox(rulesData[j].Data, "*rules.SignBeaconAttestationData").Domain))
